@@ -412,7 +412,8 @@ func (s *TypedMapType) IsValidExpression(exp Exp, pipeline *Pipeline, ast *Ast) 
 		}
 		var errs ErrorList
 		isDir := (s.IsFile() == KindIsDirectory)
-		for key, subexp := range exp.Value {
+		for _, key := range sortedKeys(exp.Value) {
+			subexp := exp.Value[key]
 			if err := s.Elem.IsValidExpression(subexp, pipeline, ast); err != nil {
 				errs = append(errs, &IncompatibleTypeError{
 					Message: "map key " + key,
@@ -467,7 +468,8 @@ func (s *TypedMapType) IsValidJson(data json.RawMessage,
 	subtype := s.Elem
 	isDir := (s.IsFile() == KindIsDirectory)
 	var errs ErrorList
-	for k, element := range m {
+	for _, k := range sortedKeys(m) {
+		element := m[k]
 		if err := subtype.IsValidJson(element, alarms, lookup); err != nil {
 			errs = append(errs, &IncompatibleTypeError{
 				Message: "key " + k,
@@ -503,7 +505,8 @@ func (s *TypedMapType) FilterJson(data json.RawMessage, lookup *TypeLookup) (jso
 	buf.Grow(len(data))
 	buf.WriteRune('{')
 	different := false
-	for i, m := range arr {
+	for _, i := range sortedKeys(arr) {
+		m := arr[i]
 		if first {
 			first = false
 		} else {
